@@ -206,7 +206,8 @@ def run_chain(darsia, rng, tid, forms, R):
         if res is not None and hasattr(res, "img") and hasattr(res, "metadata") and i < len(forms) - 1:
             key = f"r{i}"
             P[key] = res
-            if rng.random() < 0.5 and res.img.shape == P["A"].img.shape and res.scalar and res.space_dim == 2 and not res.series and res.img.dtype == P["A"].img.dtype:
+            if (rng.random() < 0.5 and res.img.shape == P["A"].img.shape and res.scalar and res.space_dim == 2 and not res.series and res.img.dtype == P["A"].img.dtype
+                    and np.allclose(res.dimensions, P["B"].dimensions) and np.allclose(np.asarray(res.origin), np.asarray(P["B"].origin))):   # preconditions of the binary forms (same coordinate system)
                 P["A_prev"], P["A"] = P["A"], res    # the next steps use the result as receiver; the old receiver stays observed
     return events
 
